@@ -29,7 +29,7 @@ ASSUMPTIONS = [
     "frames are decoded with the device type of an immediately preceding ENABLE DEVICE TYPE only; a standard opcode under a foreign device type decodes to the generic unknown command (library convention, see C01)",
 ]
 SANITY = ["tridonic_reports", "tridonic_gaps", "tridonic_subscriber_deliveries", "tridonic_failed_config_reports",
-          "tridonic_quirk_reports", "tridonic_late_joiner_reports", "luba_reports", "sci_reports", "luba_extra_subscriber_reports", "sci_extra_subscriber_reports",
+          "tridonic_quirk_reports", "tridonic_late_joiner_reports", "tridonic_two_gateway_reports", "luba_reports", "sci_reports", "luba_extra_subscriber_reports", "sci_extra_subscriber_reports",
           "luba_subscriber_op_sequences", "sci_subscriber_op_sequences"]
 BOUNDS = {"quick": "Tridonic: histories len<=2 at d<=2, len 3 at d<=1; serial: histories len<=3 (single schedule + chunk placement d<=1); subscribers <=2; late joiner: 11 kinds d<=2 + 44 pairs d<=1; own-frame-again quirk: 2 x 20 histories d<=2; serial subscriber operation sequences depth<=6",
           "thorough": "Tridonic: len<=3 at d<=2, len 4 at d<=1; serial len<=4; subscribers <=3"}
@@ -615,6 +615,88 @@ def judge_serial(res, cfg, w, obs):
     return tuple(len(v) for v in w.qlogs.values())
 
 
+# ----------------------------------------------------------------------------- two gateways in one process
+
+class RouterOS:
+    """os seam for TWO fake hidraw devices: read / write / close are routed by file descriptor."""
+    O_RDWR, O_NONBLOCK = 2, 2048
+
+    def __init__(self, worlds):
+        self.worlds = worlds
+
+    def _w(self, fd):
+        for w in self.worlds:
+            if w.fd == fd:
+                return w
+        raise OSError(9, "bad fd")
+
+    def open(self, path, flags):
+        raise FileNotFoundError(path)
+
+    def read(self, fd, n):
+        return self._w(fd).os_.read(fd, n)
+
+    def write(self, fd, data):
+        return self._w(fd).os_.write(fd, data)
+
+    def close(self, fd):
+        pass
+
+
+def make_dual_world(frames_a, frames_b):
+    """Two Tridonic drivers (two buses) in one event loop, each with its own subscriber and its own foreign traffic."""
+    def make():
+        from dalimc.aio.hidworld import HidWorld, report
+        from dalimc.aio.engine import World
+        subs = []
+        for n, frames in enumerate((frames_a, frames_b)):
+            reps = [report(0x11, 0x73, v.to_bytes(4, "big")) for v in frames]
+            sw = HidWorld("tridonic", lambda b, v, i: ("none",), [], foreign=reps)
+            sw.fd = 100 * n + 6                   # disjoint descriptor numbers
+            sw.items = list(frames)
+            subs.append(sw)
+
+        class Dual(World):
+            def build(self):
+                for sw in subs:
+                    sw.loop = self.loop
+                    sw.trace = self.trace
+                    sw.build()
+                    sw.os_ = sw.H.os
+                subs[0].H.os = RouterOS(subs)
+
+            def channels(self):
+                out = []
+                for tag, sw in zip("ab", subs):
+                    out += [(f"{tag}:{label}", pending, deliver) for label, pending, deliver in sw.channels()]
+                return out
+
+            def finish(self):
+                return {"traffic": [[(c.frame.as_integer, r, e) for k, c, r, e in sw.traffic if k == 0] for sw in subs]}
+        w = Dual()
+        w.subs = subs
+        w.timer_budget = 6
+        return w
+    return make
+
+
+def run_dual(res, outs, bound):
+    OFF1_, RMAX2, OFF3, RMIN4, DAPC5 = 0x0300, 0x0505, 0x0700, 0x0906, 0x0A80
+    for fa, fb in (((OFF1_, OFF3), (RMAX2, RMIN4)), ((OFF1_,), (RMAX2, RMIN4, DAPC5)), ((OFF1_, OFF3, DAPC5), (RMAX2,))):
+        mk = make_dual_world(fa, fb)
+        for ch, (w, obs) in explore(lambda c: execute(mk, c), bound):
+            got = [[t[0] for t in lst] for lst in obs["traffic"]]
+            res["evaluations"] += 1
+            res["traces"] += 1
+            res["transitions"] += len(w.trace)
+            observe(res, "tridonic_two_gateway_reports", sum(len(g) for g in got))
+            if got != [list(fa), list(fb)] or any(t[2] for lst in obs["traffic"] for t in lst):
+                add_violation(res, "C20:tridonic:two-gateways-mixed-up",
+                              f"two Tridonic drivers in one process, bus A carries {[hex(x) for x in fa]}, bus B {[hex(x) for x in fb]}: subscribers of A were told "
+                              f"{[hex(x) for x in got[0]]}, subscribers of B {[hex(x) for x in got[1]]} (events {w.trace[-8:]})", {"t": "dual", "bound": bound})
+            outs.add(("dual", tuple(map(tuple, got))))
+
+
 # ----------------------------------------------------------------------------- subscriber operation sequences (serial)
 
 SUB_OPS = [("frame",)] + [("sub", k) for k in (1, 2, 3)] + [("unsub", k) for k in (1, 2, 3)] + [("drop", k) for k in (1, 2)]
@@ -762,6 +844,7 @@ def shards(tier):
     for drv in ("luba", "sci"):
         for first in range(len(SUB_OPS)):
             out.append(("subs", drv, first, 6 if tier == "quick" else 7))
+    out.append(("dual", 2 if tier == "quick" else 3))
     out.append(("hasseb",))
     return out
 
@@ -782,6 +865,9 @@ def run_shard(shard):
             cfg = dict(kinds=list(h), nsubs=nsubs, own=opt if opt in ("query", "twice") else None, with_map=(opt == "map"), bound=bound)
             run_trid(cfg, bound, res, outs)
         sample(res, {"driver": "tridonic", "histories": len(hists), "example": list(hists[-1]), "bound": bound, "subscribers": nsubs, "option": opt})
+    elif k == "dual":
+        run_dual(res, outs, shard[1])
+        sample(res, {"two_tridonic_gateways_in_one_process": True, "bound": shard[1]})
     elif k == "subs":
         run_sub_sequences(res, outs, shard[1], shard[2], shard[3])
         sample(res, {"driver": shard[1], "subscriber_operation_sequences_from": list(SUB_OPS[shard[2]]), "depth": shard[3]})
@@ -833,6 +919,8 @@ def replay(case):
     if t == "tridonic":
         cfg = {k: v for k, v in case.items() if k != "t"}
         run_trid(cfg, cfg.get("bound", 2), res, outs)
+    elif t == "dual":
+        run_dual(res, outs, case.get("bound", 2))
     elif t == "subs":
         ops = [tuple(o) for o in case["ops"]]
         run_sub_sequences(res, outs, case["driver"], SUB_OPS.index(ops[0]), len(ops))
